@@ -396,7 +396,7 @@ Print Assumptions C07_committed_batch_on_chain.
    code by harness/cmd/c07 (bounce.go). *)
 Definition no_tipcheck : fixes :=
   {| f_removable := true; f_rollback := true; f_import_retry := true; f_start_reorg := true; f_rollback_order := true;
-     f_import_tipcheck := false; f_removable_debit := true; f_ff_check := true |}.
+     f_import_tipcheck := false; f_removable_debit := true; f_ff_check := true; f_keystore_undo := true |}.
 Definition b3 := {| b_id := 3; b_prev := 2; b_height := 3; b_txs := [cb 3 []] |}.
 Definition b4 := {| b_id := 4; b_prev := 3; b_height := 4; b_txs := [cb 4 []] |}.
 Definition b5 := {| b_id := 5; b_prev := 4; b_height := 5; b_txs := [cb 5 []] |}.
